@@ -542,4 +542,20 @@ static std::string step(const std::vector<std::string>& w) {
   return "bad-op";
 }
 
-int main() { return vh::run_loop(step); }
+extern "C" void __sanitizer_print_stack_trace(void);
+
+int main() {
+  // Sanitizer reports of the forked children are symbolized in-process (libbacktrace); spawning llvm-symbolizer once per
+  // aborted child costs seconds each.  The harness needs nothing from PATH.  One symbolized trace in the parent warms
+  // the DWARF caches that the children inherit.
+  setenv("PATH", "/nonexistent", 1);
+  {
+    fflush(stderr);
+    const int saved = dup(2);
+    const int nul = open("/dev/null", O_WRONLY);
+    if (saved >= 0 && nul >= 0) { dup2(nul, 2); __sanitizer_print_stack_trace(); fflush(stderr); dup2(saved, 2); }
+    if (nul >= 0) close(nul);
+    if (saved >= 0) close(saved);
+  }
+  return vh::run_loop(step);
+}
